@@ -1,16 +1,16 @@
-import Proofs.DdsExact
+import Proofs.DdsNorm
 namespace Pydap.Dds
 open Pydap
 
 /-- a dimension name outside `name_regexp` (DESIGN §9 #20: the NetCDF handler's fully-qualified `/y`) -/
-def slashDimWitness : Dataset := ⟨['x'], [.base ⟨['v'], ['d'], [4], [['/', 'y']]⟩]⟩
+def slashDimWitness : Dataset := ⟨['x'], [.base ⟨['v'], ['d'], [4], [['/', 'y']], false⟩]⟩
 
 theorem intText_4 : intText 4 = ['4'] := by simp [intText, natDigits, digitChar]
 
 theorem slashDimWitness_prints :
     printDs slashDimWitness = .ok "Dataset {\n    Float64 v[/y = 4];\n} x;\n".toList := by
   have l1 : lookup Gen.NUMPY_TO_DAP2_TYPEMAP (dtypeChar ['d']) = some "Float64".toList := by decide
-  simp [slashDimWitness, printDs, printL, printT, printBase, shapeText, dimText, intText_4, closeText, indent, l1]
+  simp [slashDimWitness, printDs, printL, printT, printBase, shapeText, effShape, dimText, intText_4, closeText, indent, l1]
 
 /-- after `[` the parser wants a `name_regexp` token: `/` is not in it -/
 theorem slash_dim_rejected (fuel : Nat) (rest : Text) :
